@@ -46,6 +46,15 @@ class Toks:
         k = self.next()
         if k == "t":
             return ("text", self.next())
+        if k == "fx":
+            # a pure expression with one filter / test: prints what it prints on its own, wherever
+            # it stands (hidden in a branch that does not run: nothing)
+            hide = self.num()
+            self.next()
+            exp = self.next()
+            return ("text", exp if hide == 0 else "")
+        if k == "fuse":
+            return ("text", "")
         if k == "b":
             return ("block", self.num())
         if k == "s":
@@ -621,7 +630,7 @@ def run(r):
     ]
     r.regen_tables(["MAX_RECURSION_ENV", "INCLUDE_RECURSION_COST", "MACRO_RECURSION_COST",
                     "C06_AUTO_ESCAPE_EXTENSIONS", "C06_UNDEFINED_TABLES", "HTML_ESCAPE_TABLE",
-                    "C06_INCLUDE_CHOICES"])
+                    "C06_INCLUDE_CHOICES", "C06_ACTIVATION_STATE"])
     r.lean_prove("MJ.Props.C06", "MJ/Audit/C06.lean", extra_targets=["drive_c06"])
     exe = r.cargo_build("c06")
     if exe is None:
@@ -638,10 +647,18 @@ def run(r):
     r.exhaustive = False
     for i, line in enumerate(lines):
         f = line.split("\t")
-        if len(f) != 6:
+        if len(f) != 7:
             r.broken.append(f"malformed harness line {i}")
             continue
-        case, impl, detail, meta, rblock, fresh = f
+        case, impl, detail, meta, rblock, fresh, recov = f
+        if re.search(r" fx \d \w+ [!?]", case):
+            r.broken.append(f"a filter / test expression of the menu does not render on its own: {case[:200]}")
+        r.hist["recovery after a failed render_block"][recov.split(":")[0] + (":" + recov.split(":")[1] if recov.startswith("same:") else "")] += 1
+        if recov.startswith("diff:"):
+            _, blk, kth, seen, rest = recov.split(":", 4)
+            r.oracle_failure(case, f"render_captured + State::render_block: after a render of block {blk} failed (the fuse at its {kth[1:]}. call) "
+                             f"the same State renders block {seen} differently than before the failure: {rest[:400]}",
+                             "state-not-restored-after-failed-block:" + case.split(" ", 1)[0].split("~")[0])
         r.hist["metamorphic include == alone"][meta.split(":")[0]] += 1
         if meta.startswith("diff:"):
             r.oracle_failure(case, "a wrapper template that only includes t0 does not render what t0 renders on its own "
